@@ -177,8 +177,8 @@ theorem indexed_scan_histories_bracket (rows : List (Nat × Row)) (ops : List Op
 def exHistory : List Op :=
   [.index 0 .btree,
    .append [(4294967296, [some 7, some 7, some 7]), (4294967297, [none, none, none])],
-   .delete (.cmp .eq 0 (.lit 2)),
-   .update 1 (some 9) (.cmp .eq 0 (.lit 1)) [8589934592],
+   .delete [1],
+   .update 1 (some 9) [0] [8589934592],
    .optimize,
    .index 1 .bitmap,
    .compact [0, 1, 2] [3]
